@@ -71,6 +71,26 @@ def run(ck: Checker):
                  construct=f'minimize_subcircuits: polarity of {name}')
     ck.need(n_uses >= 3, f'{m.rel}: only {n_uses} uses of negation-mapped labels found')
 
+    # ---- OUTS: the trivial branch rewrites every occurrence of a replaced output, in place
+    ck.rule('C04.OUTS', 'when a cone output is replaced by an equivalent gate, every occurrence of it in the circuit outputs is rewritten in order before the gate is removed')
+    outs_writes = [n for n in ast.walk(fn) if isinstance(n, ast.Assign) and norm(n.targets[0]) == 'circuit._outputs']
+    ok = False
+    if len(outs_writes) == 1:
+        v = outs_writes[0].value
+        if isinstance(v, ast.ListComp) and len(v.generators) == 1 and not v.generators[0].ifs and norm(v.generators[0].iter) in ('circuit._outputs', 'circuit.outputs') \
+                and isinstance(v.elt, ast.IfExp) and norm(v.elt.test) == f'{norm(v.generators[0].target)} == output' and norm(v.elt.orelse) == norm(v.generators[0].target):
+            st, suite = outs_writes[0], None
+            par = m.parents[st]
+            suite = par.body if isinstance(par, ast.For) else []
+            rm = [s_ for s_ in suite if norm(s_) == 'circuit.remove_gate(output)']
+            ok = bool(rm) and rm[0].lineno > st.lineno
+    other_writes = [c for c in calls_in(fn) if isinstance(c.func, ast.Attribute) and norm(c.func.value) in ('circuit._outputs', 'circuit.outputs') and c.func.attr in ('remove', 'pop', 'insert', 'append')]
+    subs = [n for n in ast.walk(fn) if isinstance(n, ast.Assign) and isinstance(n.targets[0], ast.Subscript) and norm(n.targets[0].value) in ('circuit._outputs', 'circuit.outputs')]
+    ck.check(ok and not other_writes and not subs, 'C04.OUTS', m, outs_writes[0] if outs_writes else fn,
+             'all occurrences of the replaced output are rewritten (order and multiplicity of the outputs kept) before remove_gate drops the label',
+             'the outputs are not rewritten by an element-wise comprehension over all of circuit._outputs before remove_gate(output): occurrences that are not rewritten are silently dropped by remove_gate',
+             construct='minimize_subcircuits: outputs rewrite in the trivial branch')
+
     # ---- KEYDOM ----
     # keys put into output_labels_mapping
     key_sources = []
